@@ -1380,7 +1380,7 @@ class Engine(object):
             return self.for_symbolic(node, it, frame, st)
         if isinstance(it, GList) and not all(z3.is_true(g) for g, _ in it.items):
             try:
-                items = self.iterate(it, st)
+                items = self.iterate(it, st, fork_ok=False)
             except Unsupported:
                 return self.for_conditional(node, it, frame, st)
         else:
@@ -1904,6 +1904,11 @@ class Engine(object):
         """leaf-wise application where some leaves may raise: fork on those leaves"""
         try:
             return fv_apply(f, *args)
+        except (TypeError, ZeroDivisionError) as e:
+            if any(isinstance(a, FV) for a in args):
+                raise
+            # all operands concrete: the host operation's exception is the program's exception
+            raise PyRaise(type(e), e.args)
         except LeafRaise as lr:
             for e, g in lr.exc_leaves:
                 cls = type(e)
@@ -2379,11 +2384,18 @@ class Engine(object):
             i = j
         return out
 
-    def iterate(self, it, st):
+    def iterate(self, it, st, fork_ok=True):
         if isinstance(it, (list, tuple)):
             return list(it)
         if isinstance(it, GList):
-            return self.compact_glist(it, st)
+            try:
+                return self.compact_glist(it, st)
+            except Unsupported:
+                # a few conditionally present elements: one path per combination of presences
+                open_ = [g for g, _ in it.items if not z3.is_true(g)]
+                if st.guards or len(open_) > 6 or not fork_ok:
+                    raise
+                return [x for g, x in it.items if z3.is_true(g) or st.decide(g, "element present?")]
         if type(it).__name__ == "SymSet":
             st.events.append(("hash-order", "iteration over a set (order depends on the hash seed)"))
             return self.compact_glist(GList(it.items), st)
